@@ -3,7 +3,9 @@
    property of the Python code: it is decided by bytewise snapshots in the correspondence run.) *)
 From PV Require Import Lib.Base Model.Prng Model.Core.
 From mathcomp Require Import all_ssreflect.
-From PV Require Import Lib.Shuffle Lib.ShuffleTape Proofs.RearrangeProofs.
+From Coq Require Import ZArith.
+From PV Require Import Model.Stratified.
+From PV Require Import Lib.Shuffle Lib.ShuffleTape Proofs.RearrangeProofs Proofs.StratProofs.
 Local Open Scope nat_scope.
 
 (* permute (cryptorandom Fisher-Yates), random.shuffle and random_sample(a, len(a)): for EVERY tape on which
@@ -40,3 +42,11 @@ Print Assumptions C03_two_sample_core_orders_are_permutations.
 Theorem C03_one_sample_sign_bits : forall n t b t', bits n t = Ok (b, t') -> all (fun v => v < 2) b /\ size b = n.
 Proof. exact bits_are_bits. Qed.
 Print Assumptions C03_one_sample_sign_bits.
+
+(* permute_within_groups: values never move between strata (any element type, any tape) *)
+Theorem C03_within_groups_never_leaves_stratum :
+  forall (T : Type) (x0 : T) (x : seq T) (g : seq Z) t y t', size x = size g ->
+  permute_within_groups x0 x g t = Ok (y, t') ->
+  exists sigma, [/\ perm_eq sigma (iota 0 (size g)), stratum_ok g sigma & y = [seq nth x0 x i | i <- sigma]].
+Proof. exact pwg_within_strata. Qed.
+Print Assumptions C03_within_groups_never_leaves_stratum.
